@@ -195,7 +195,19 @@ func createdRev(so *StepObs) int {
 }
 
 func isDryOp(op *OpSpec) bool {
-	return op.DryRun || op.DryRunOption == "client" || op.DryRunOption == "server" || op.DryRunOption == "true" || op.ClientOnly || op.Op == "cli"
+	if op.Op == "cli" {
+		// a command line: helm template, or any command given a --dry-run flag
+		if op.CLIKind == "template" {
+			return true
+		}
+		for _, a := range op.CLI {
+			if a == "--dry-run" || strings.HasPrefix(a, "--dry-run=") {
+				return true
+			}
+		}
+		return false
+	}
+	return op.DryRun || op.DryRunOption == "client" || op.DryRunOption == "server" || op.DryRunOption == "true" || op.ClientOnly
 }
 
 // clusterMatches checks C02 (a): every document of the manifest exists live
